@@ -33,13 +33,13 @@ P = {
              theorems=['C03_step', 'C03_two_tables', 'C03_finishes_within_ceil_L_over_R']),
  'C04': dict(families=[('capacity', 150, 2500, 120), ('core', 100, 1500, 120), ('clone', 40, 600, 120)], aspects='RSA', profiles=['debug', 'release'],
              theorems=['C04_capacity_ge_len', 'C04_headroom_invariant', 'C04_full_implies_no_resize', 'C04_sizing_keeps_headroom', 'C04_fill']),
- 'C08': dict(families=[('iter', 150, 2500, 120), ('mixed', 80, 1200, 120)], aspects='RSD', profiles=['debug', 'release'],
+ 'C08': dict(families=[('iter', 150, 2500, 120), ('mixed', 80, 1200, 120), ('set', 40, 600, 120)], aspects='RSD', profiles=['debug', 'release'],
              theorems=['C08_iter_each_once', 'C08_exact_len', 'C08_keys_values_same_order', 'C08_drain', 'C08_into_iter']),
- 'C09': dict(families=[('iter', 200, 3000, 120), ('mixed', 60, 1000, 120)], aspects='RSDK', profiles=['debug'],
+ 'C09': dict(families=[('iter', 200, 3000, 120), ('mixed', 60, 1000, 120), ('set', 40, 600, 120)], aspects='RSDK', profiles=['debug'],
              theorems=['C09_retain', 'C09_drain_filter', 'C09_panicking_predicate_keeps_invariant']),
- 'C11': dict(families=[('clone', 200, 3000, 120), ('mixed', 60, 1000, 120)], aspects='RSDK', profiles=['debug', 'release'],
+ 'C11': dict(families=[('clone', 200, 3000, 120), ('mixed', 60, 1000, 120), ('set', 40, 600, 120)], aspects='RSDK', profiles=['debug', 'release'],
              theorems=['C11_clone', 'C11_clone_from', 'C11_independent']),
- 'C14': dict(families=[('clone', 150, 2500, 120), ('mixed', 80, 1200, 120), ('iter', 50, 800, 120)], aspects='RD', profiles=['debug'],
+ 'C14': dict(families=[('clone', 150, 2500, 120), ('mixed', 80, 1200, 120), ('iter', 50, 800, 120), ('set', 60, 800, 120)], aspects='RD', profiles=['debug'],
              theorems=['C14_eq_iff', 'C14_eq_is_equivalence', 'C14_eq_false_when_differing', 'C14_lookup_by_contents', 'C14_iteration_by_contents']),
  'C10': dict(families=[('capacity', 200, 3000, 120), ('mixed', 60, 1000, 120)], aspects='RSA', profiles=['debug', 'release'],
              theorems=['C10_with_capacity', 'C10_reserve', 'C10_reserved_inserts', 'C10_try_reserve_err', 'C10_reserve_panic', 'C10_never_silent', 'C10_shrink']),
@@ -51,7 +51,7 @@ P = {
              cross_profile=True,
              theorems=['C17_profile_independent', 'C17_run_profile_independent', 'C17_no_assertion_fires', 'C17_sizes_fit']),
  'C06': dict(families=[('mixed', 150, 2500, 120), ('iter', 100, 1500, 120), ('entry', 60, 1000, 120), ('clone', 80, 1200, 120), ('core', 60, 1000, 120)], aspects='RSDK', profiles=['debug', 'release'],
-             theorems=['C06_history_conserves_keys', 'C06_all_released_once_maps_are_gone', 'C06_moves_drop_nothing', 'C06_insert_drops_duplicate_key_only', 'C06_insert_conserves', 'C06_extend_conserves', 'C06_remove_hands_back', 'C06_lookup_drops_nothing', 'C06_reserve_drops_nothing',
+             theorems=['C06_history_conserves_keys', 'C06_all_released_once_maps_are_gone', 'C06_keys_in_static', 'C06_moves_drop_nothing', 'C06_insert_drops_duplicate_key_only', 'C06_insert_conserves', 'C06_extend_conserves', 'C06_remove_hands_back', 'C06_lookup_drops_nothing', 'C06_reserve_drops_nothing',
                        'C06_shrink_drops_nothing', 'C06_iter_drops_nothing', 'C06_clone_drops_nothing', 'C06_clone_from_drops_destination_once', 'C06_eq_drops_nothing', 'C06_clear_drops_each_once', 'C06_drop_map_drops_each_once',
                        'C06_drain_drops_the_rest_once', 'C06_into_iter_drops_the_rest_once', 'C06_retain_conserves_keys', 'C06_drain_filter_conserves_keys', 'C06_lite_reachable']),
  'C13': dict(families=[('set', 120, 1500, 120), ('zst', 40, 400, 150)], aspects='RSD', profiles=['debug', 'release'],
@@ -216,6 +216,8 @@ def run_family(prop, fam, nh, maxops, seed, profile, aspects, rundir, tag='', bu
         res.update(crashed=True, crashed_in=None, stats={}, diffs=[], viol=[], ops=0,
                    harness_out='the harness wrote an unreadable statistics file (memory corruption?): %s' % e)
         return res
+    if fam in ('set', 'parset', 'serset', 'zst'):
+        aspects = aspects.replace('K', '')   # the set harness does not record the drop ledger (elements have no value object)
     code, out = sh([os.path.join(ROOT, 'ocaml', 'driver'), f'--aspects={aspects}', base + '.trace'], timeout=3000)
     res['diffs'] = [l for l in out.split('\n') if l.startswith('DIFF')]
     m = re.search(r'TOTAL histories=(\d+) ops=(\d+) diffs=(\d+)', out)
